@@ -77,14 +77,26 @@ def install():
     # --- %s shim -------------------------------------------------------------------
     orig_mod = core._PATCH_REGISTRATIONS.get(str.__mod__)
 
+    def _is_int(x):
+        with NoTracing():
+            return type(x) is int or (isinstance(x, CrossHairValue) and type(x).__name__ == "SymbolicInt")
+
     def _pct(self, other):
         if type(self) is str and "%(" not in self:
-            parts = re.split(r"(%[%s])", self)
+            parts = re.split(r"(%[%s]|%0?[1-9]?d)", self)
             simple = all((i % 2 == 1) or ("%" not in p) for i, p in enumerate(parts))
             if simple:
                 args = other if type(other) is tuple else (other,)
-                n = sum(1 for i, p in enumerate(parts) if i % 2 == 1 and p == "%s")
+                n = sum(1 for i, p in enumerate(parts) if i % 2 == 1 and p != "%%")
+                ints_ok = True
                 if n == len(args):
+                    k = 0
+                    for i, p in enumerate(parts):
+                        if i % 2 == 1 and p != "%%":
+                            if p != "%s" and not _is_int(args[k]):
+                                ints_ok = False
+                            k += 1
+                if n == len(args) and ints_ok:
                     out = ""
                     it = iter(args)
                     for i, p in enumerate(parts):
@@ -92,8 +104,23 @@ def install():
                             out = out + p
                         elif p == "%%":
                             out = out + "%"
-                        else:
+                        elif p == "%s":
                             out = out + str(next(it))
+                        else:
+                            # %d / %Nd / %0Nd on an int: digits by arithmetic (CrossHair's int.__repr__), padding by length
+                            x = next(it)
+                            spec = p[1:len(p) - 1]
+                            neg = x < 0
+                            digits = str(-x if neg else x)
+                            width = int(spec) if spec not in ("", "0") else 0
+                            fill = "0" if spec[:1] == "0" else " "
+                            pad = width - len(digits) - (1 if neg else 0)
+                            if pad < 0:
+                                pad = 0
+                            if fill == "0":
+                                out = out + ("-" if neg else "") + "0" * pad + digits
+                            else:
+                                out = out + " " * pad + ("-" if neg else "") + digits
                     return out
         with NoTracing():
             args = other if type(other) is tuple else (other,)
